@@ -751,3 +751,116 @@ def r08_19(ctx, rule='R08.19'):
            '%d signal.signal calls examined; only SIGINT is set to SIG_IGN' % seen if not bad else
            '%s ignores %s: from there on terminate() / terminate_job / a hard limit cannot stop this worker' %
            (bad[0][0].qual, ast.unparse(bad[0][1].args[0])))
+
+
+# ---------------------------------------------------------------------------------------------------------------
+# second look at the sweep's survivors (handshake wiring, lazy start of the scanner, shrink count, NACK)
+
+def r03_8(ctx, rule='R03.8'):
+    ctx.rule(rule, 'a refused job sends the worker back to waiting, and the handshake is wired for handshake pools: after a '
+                   'NACK the worker reaches wait_for_job() again without leaving the loop; every handle the pool creates '
+                   'gets `self.send_ack` exactly when `self.synack` is set', floor=2)
+    from .poolfacts import WorkloopAnchors
+    A = WorkloopAnchors(ctx)
+    fi, cfg = A.fi, A.fi.cfg
+    takes = q.nodes_calling(fi, 'self.wait_for_job')
+    q.need(takes, 'Worker.workloop does not call wait_for_job')
+    confirms = [st.targets[0].id for st in ast.walk(fi.node) if isinstance(st, ast.Assign)
+                and isinstance(st.targets[0], ast.Name) and isinstance(st.value, ast.Call)
+                and ast.unparse(st.value.func) == 'wait_for_syn']
+    refused = q.outcome_edges(fi, lambda t: t.startswith('wait_for_syn(') or t in confirms, False)
+    q.need(refused, 'Worker.workloop does not test the answer of the handshake')
+    # the loop condition may end the loop (quota reached): what is asked is that nothing but the loop test lies between
+    # the refusal and the next job
+    loop_tests = [n.id for n in cfg.nodes if n.id in cfg.live and n.kind == 'test' and isinstance(n.stmt, ast.While)]
+    r = cfg.reach([b for (a, b, l) in refused], block_nodes=[t.id for t in takes] + loop_tests, include_src=True,
+                  skip_labels=('x',))
+    leaves = cfg.exit.id in r or not any(b in loop_tests or b in {t.id for t in takes} or
+                                         (set(loop_tests) | {t.id for t in takes}) & cfg.reach([b], include_src=True, skip_labels=('x',))
+                                         for (a, b, l) in refused)
+    ctx.ob(rule, 'workloop:refused-job-goes-back-to-waiting', not leaves, fi, None,
+           'after a NACK every normal path reaches the next wait_for_job()' if not leaves else
+           'after a NACK the worker can leave the job loop: one cancelled job costs a worker',
+           path=None if not leaves else cfg.path([b for (a, b, l) in refused], [cfg.exit.id],
+                                                 block_nodes=[t.id for t in takes], skip_labels=('x',)))
+    m = ctx.model
+    n_sites = 0
+    bad = None
+    for qn, pf in m.funcs.items():
+        if not qn.startswith('pool:Pool.'):
+            continue
+        for c in [x for x in ast.walk(pf.node) if isinstance(x, ast.Call)]:
+            kws = [k.value for k in c.keywords if k.arg == 'send_ack']
+            if not kws and ast.unparse(c.func) in ('ApplyResult', 'MapResult', 'IMapIterator', 'IMapUnorderedIterator'):
+                init = m.funcs.get('pool:%s.__init__' % ast.unparse(c.func))
+                if init is not None and 'send_ack' in init.params:
+                    k_ = init.params.index('send_ack') - 1
+                    if k_ < len(c.args):
+                        kws = [c.args[k_]]
+            if not kws:
+                continue
+            n_sites += 1
+            v = kws[0]
+            ok = isinstance(v, ast.IfExp) and ast.unparse(v.test) == 'self.synack' and \
+                ast.unparse(v.body) == 'self.send_ack' and isinstance(v.orelse, ast.Constant) and v.orelse.value is None
+            ok = ok or (isinstance(v, ast.BoolOp) and isinstance(v.op, ast.And) and
+                        [ast.unparse(x) for x in v.values] == ['self.synack', 'self.send_ack'])
+            if not ok and bad is None:
+                bad = (pf, c)
+    q.need(n_sites, 'no handle is created with a send_ack argument')
+    ctx.ob(rule, 'pool:send_ack-wired-exactly-for-handshake-pools', bad is None, bad[0] if bad else fi,
+           bad[1] if bad else None, '%d sites: send_ack=self.send_ack if self.synack else None' % n_sites)
+
+
+def r05_15(ctx, rule='R05.15'):
+    ctx.rule(rule, 'a job with a time limit of its own starts the (lazily started) scanner: in apply_async every path '
+                   'from "timeout or soft_timeout" to the submission of the task passes _start_timeout_handler()',
+             floor=1)
+    fi = _find(ctx, 'pool:Pool.apply_async')
+    cfg = fi.cfg
+    starts = q.nodes_calling(fi, 'self._start_timeout_handler')
+    if not starts:
+        ctx.ob(rule, 'apply_async:own-limit-starts-the-scanner', False, fi, None,
+               'apply_async never starts the time-limit scanner: on a pool created with enable_timeouts=True and no '
+               'pool-level limit nobody ever enforces a job\'s own limit')
+        return
+    sends = q.nodes_calling(fi, 'self._taskqueue.put') + q.nodes_calling(fi, 'self._quick_put')
+    q.need(sends, 'apply_async does not submit the task')
+    limited = q.outcome_edges(fi, 'timeout', True) | q.outcome_edges(fi, 'soft_timeout', True)
+    # only the tests that follow the construction of the handle (the earlier `soft_timeout and SIG_SOFT_TIMEOUT is None`
+    # test is about platforms without the signal)
+    made = [n for (n, c) in q.calls(fi, 'ApplyResult')]
+    q.need(made, 'apply_async creates no ApplyResult')
+    after = cfg.reach([x.id for x in made], include_src=False, skip_labels=('x',))
+    limited = {(a, b, l) for (a, b, l) in limited if a in after}
+    q.need(limited, 'apply_async does not test the job\'s own limits after creating the handle')
+    tests_ = {a_ for (a_, b_, l_) in limited}
+    start_ids = {x.id for x in starts}
+    srcs = [b for (a, b, l) in limited if b not in tests_ and b not in start_ids]
+    ok, w = cfg.must_pass(srcs, sends, starts, skip_labels=('x',)) if srcs else (True, None)
+    ctx.ob(rule, 'apply_async:own-limit-starts-the-scanner', ok, fi, starts[0],
+           'with a limit of its own the job is submitted only after _start_timeout_handler()' if ok else
+           'a job with its own time limit can be submitted without the scanner having been started: on a pool created '
+           'with enable_timeouts=True and no pool-level limit nobody ever enforces it', path=w)
+
+
+def r09_14(ctx, rule='R09.14'):
+    ctx.rule(rule, 'shrink(n) ends exactly n workers: the loop over the inactive workers is left when the enumerate index '
+                   'reaches n - 1 (normal form `i < n - 1` false), not one pass later', floor=1)
+    fi = _find(ctx, 'pool:Pool.shrink')
+    cfg = fi.cfg
+    P = fi.positional_params()[1]
+    fors = [st for st in ast.walk(fi.node) if isinstance(st, ast.For) and isinstance(st.iter, ast.Call)
+            and ast.unparse(st.iter.func) == 'enumerate' and isinstance(st.target, ast.Tuple)]
+    q.need(fors, 'Pool.shrink: no enumerate loop over the inactive workers')
+    iv = fors[0].target.elts[0].id
+    start = ast.unparse(fors[0].iter.args[1]) if len(fors[0].iter.args) > 1 else '0'
+    brk = [n for n in cfg.nodes if n.id in cfg.live and isinstance(n.ast, ast.Break) and q.inside(fi, n, fors[0].body)]
+    q.need(brk, 'Pool.shrink never leaves its loop early')
+    want = {('0', ('%s < (%s - 1)' % (iv, P), False)), ('0', ('%s == (%s - 1)' % (iv, P), True)),
+            ('0', ('(%s - 1) == %s' % (P, iv), True)), ('0', ('(%s + 1) < %s' % (iv, P), False)),
+            ('1', ('%s < %s' % (iv, P), False)), ('1', ('%s == %s' % (iv, P), True)), ('1', ('%s == %s' % (P, iv), True))}
+    ok = all(any((start, g) in want for g in q.guards_norm(fi, b)) for b in brk)
+    ctx.ob(rule, 'shrink:loop-left-after-n-workers', ok, fi, brk[0],
+           'break under %s' % sorted(t for b in brk for (t, p) in q.guards_norm(fi, b)) if not ok else
+           'break exactly when %d-based index %s reached %s' % (int(start), iv, P))
